@@ -136,3 +136,18 @@ theorem ofNatBE_inj (k a b : Nat) (ha : a < 256 ^ k) (hb : b < 256 ^ k)
   rwa [toNatBE_ofNatBE, toNatBE_ofNatBE, Nat.mod_eq_of_lt ha, Nat.mod_eq_of_lt hb] at this
 
 end TinkVerif.Bytes
+
+namespace TinkVerif.Bytes
+
+theorem xor_comm (a b : Bytes) : xor a b = xor b a := by
+  induction a generalizing b with
+  | nil => cases b <;> simp [xor]
+  | cons x xs ih =>
+    cases b with
+    | nil => simp [xor]
+    | cons y ys =>
+      have := ih ys
+      simp only [xor] at this ⊢
+      simp [this, UInt8.xor_comm]
+
+end TinkVerif.Bytes
